@@ -35,6 +35,9 @@ type vcfg struct {
 	Gen       int  `mapstructure:"gen"`
 	FailStart bool `mapstructure:"fail_start"`
 	FailStop  bool `mapstructure:"fail_stop"`
+	// SlowStart: Start returns only once nothing else can run (a component that takes long to come up): external events
+	// then arrive while the run loop is busy bringing a configuration up
+	SlowStart bool `mapstructure:"slow_start"`
 }
 
 var evlog []string
@@ -47,6 +50,9 @@ type vcomp struct {
 }
 
 func (c *vcomp) Start(context.Context, component.Host) error {
+	if c.cfg.SlowStart {
+		vs.AwaitQuiescenceWeak(nil)
+	}
 	ev("start %s g%d", c.kind, c.cfg.Gen)
 	if c.cfg.FailStart {
 		return errors.New("start failed")
@@ -125,7 +131,7 @@ func (p *genProvider) Retrieve(_ context.Context, uri string, w confmap.WatcherF
 	}
 	ev("retrieve g%d %s", p.gen, kind)
 	recv := fmt.Sprintf("{gen: %d}", p.gen)
-	exp := fmt.Sprintf("{gen: %d, fail_start: %v, fail_stop: %v}", p.gen, kind == "failstart", kind == "failstop")
+	exp := fmt.Sprintf("{gen: %d, fail_start: %v, fail_stop: %v, slow_start: %v}", p.gen, kind == "failstart", kind == "failstop", kind == "slow")
 	extra := ""
 	if kind == "badcfg" {
 		extra = "\nbogus_top_level: 1"
@@ -216,7 +222,12 @@ func c20body(hist []string, plan []string, res *result, prov **genProvider) func
 					// the provider goroutine blocks until the resolver accepts the event, or gives up when Run is gone
 					w := gp.watcher
 					isErr := h == "cfgerr"
+					called := false
+					// by default the provider's notification is handed to the resolver before the next external event
+					// happens (the events thread waits for the hand-over, which lets the environment thread run without
+					// a deviation); a LATER event overtaking it is one deviation away (the wait is a scheduling point)
 					vs.GoDaemon("watcher-call", func() {
+						defer func() { called = true }()
 						w(&confmap.ChangeEvent{Error: e})
 						// the resolver took the event (or Run is on its way out anyway): a configuration-watch ERROR is one of
 						// the statement's stopping events - once delivered, the run ends without anything further
@@ -224,6 +235,7 @@ func c20body(hist []string, plan []string, res *result, prov **genProvider) func
 							stopIssued = "configuration-watch error (accepted by the resolver)"
 						}
 					})
+					vs.Block(func() bool { return called || res.returned })
 				case "log":
 					// a provider with a goroutine of its own (a watcher, a poller) writes a log line through the logger the
 					// collector gave it - at any moment, also while the run loop swaps the logger's core at a (re)start
@@ -380,7 +392,8 @@ func TestVerif(t *testing.T) {
 	// level: of at most E events), cheapest first; a level is reported as completed only if every shard finished it
 	levels := ctx.ParamS("levels", "2.2")
 	alpha := []string{"cfg", "cfgerr", "hup", "term", "shutdown", "ctx", "async"}
-	plans := [][]string{{"ok", "ok", "ok"}, {"ok", "failstart"}, {"ok", "badcfg"}, {"ok", "failstop", "ok"}, {"failstart"}, {"badcfg"}}
+	// (the last plan - every generation's exporter is slow to start - runs with the histories made of reload-related events)
+	plans := [][]string{{"ok", "ok", "ok"}, {"ok", "failstart"}, {"ok", "badcfg"}, {"ok", "failstop", "ok"}, {"failstart"}, {"badcfg"}, {"slow", "slow", "slow"}}
 	histsOf := func(minLen, maxLen int) [][]string {
 		var hists [][]string
 		var rec func(cur []string)
@@ -427,6 +440,18 @@ func TestVerif(t *testing.T) {
 		for _, h := range hists {
 			if len(h) > 0 && (h[0] == "log" || h[len(h)-1] == "log") && pi > 1 {
 				continue // the logging-provider histories: two generation plans (all ok; the second generation fails to start)
+			}
+			if plan[0] == "slow" {
+				reloadOnly := len(h) > 0
+				for _, e := range h {
+					reloadOnly = reloadOnly && (e == "cfg" || e == "cfgerr" || e == "hup")
+				}
+				if !reloadOnly {
+					continue
+				}
+			}
+			if only := os.Getenv("VERIF_C20_ONLY"); only != "" && only != fmt.Sprint(plan)+fmt.Sprint(h) { // debugging aid
+				continue
 			}
 			n++
 			if !ctx.Mine(n) {
